@@ -35,7 +35,13 @@ def audit(key):
         bypath.setdefault(ob.path, []).append(ob)
     closed = []
     nunk = 0
+    import time
+    t0 = time.time()
+    budget = float(os.environ.get('PYVC_AUDIT_SECS', '300'))
     for path, obs in bypath.items():
+        if time.time() - t0 > budget:
+            nunk += 1          # per-function time budget used up: the remaining paths count as undetermined
+            continue
         r = feas(obs[-1].pc)
         if r == z3.sat:
             continue
